@@ -59,7 +59,7 @@ def handleCommute (st : St) (op : String) (j : Json) : Option (D (St × Json)) :
     let d ← node (← field j "doc")
     let a ← step (← field j "a")
     let b ← step (← field j "b")
-    match a, replRange b with
+    match a, replRangeIn d b with
     | .replaceAround f _ gf gt sl _ _, some (f1, t1, s1) =>
       -- [guard, `hcl`: the replace-around step's slice is closed, `hdbal`: both ends of the filled slice are
       --  pair-aligned in the document after the replace-around step (null if it does not apply)]
